@@ -180,6 +180,20 @@ theorem reader_any_segmentation (r : Reader) (hr : r.dead = false) (hbuf : cut r
   rw [a1, a2, a3, b1, b2, b3, h]
   exact ⟨rfl, rfl, rfl⟩
 
+/-- so what ends up on the read queue does not depend on how TCP cut the stream: two segmentations of the same
+    bytes (arriving at whatever instants) leave the same queue -/
+theorem queue_any_segmentation (c : Cfg) (s : St) (xs ys : List (Nat × Bytes)) (hc : s.closed = false)
+    (hr : s.rd.dead = false) (hbuf : cut s.rd.buf = none)
+    (h : (xs.map (·.2)).flatten = (ys.map (·.2)).flatten)
+    (hdx : NoDeath (timeline s xs)) (hdy : NoDeath (timeline s ys)) :
+    (opIdle c s xs).2.2.queue = (opIdle c s ys).2.2.queue := by
+  rw [(opIdle_spec c s xs hc hdx).2.2, (opIdle_spec c s ys hc hdy).2.2]
+  have e : ∀ zs : List (Nat × Bytes), (shift s.now zs).map (·.2) = zs.map (·.2) := by
+    intro zs; simp [shift, List.map_map, Function.comp_def]
+  have := (reader_any_segmentation s.rd hr hbuf (shift s.now xs) (shift s.now ys) (by rw [e, e, h])).1
+  unfold timeline
+  rw [this]
+
 /-! ### demultiplexing -/
 
 /-- one read on a queue: it delivers the first queued diagnostic message from the configured target to the
@@ -367,6 +381,26 @@ theorem write_completes_iff_acked (c : Cfg) (s : St) (data : Bytes) (tmo : Nat) 
     · intro hall
       have := hall f (by rw [e1]; simp)
       rw [e2] at this; cases this
+
+/-- a write given up by the caller's own (shorter) timeout: reported as a timeout, the connection stays open and
+    every frame skipped meanwhile is still queued, in arrival order -/
+theorem write_caller_timeout (c : Cfg) (s : St) (data : Bytes) (tmo : Nat) (arr : List (Nat × Bytes))
+    (hc : s.closed = false) (hd : NoDeath (timeline s arr)) (ht : tmo < ackTimeoutMs)
+    (hall : ∀ y ∈ s.queue ++ visible (s.now + tmo) (timeline s arr), ackMatch c data y = false) :
+    (opWrite c s data tmo arr).1 = .timeout ∧ (opWrite c s data tmo arr).2.2.closed = false ∧
+    (opWrite c s data tmo arr).2.2.queue = s.queue ++ allFrames (timeline s arr) := by
+  obtain ⟨h1, _, h3, h4⟩ := opWrite_spec c s data tmo arr hc hd
+  have hm : min tmo ackTimeoutMs = tmo := Nat.min_eq_left (Nat.le_of_lt ht)
+  rw [hm] at h1 h3 h4
+  have hw : waitRef (ackMatch c data) (s.queue ++ visible (s.now + tmo) (timeline s arr)) = .timeout := by
+    unfold waitRef; rw [(findSplit_none_iff _ _).mpr hall]
+  rw [hw] at h1 h3 h4
+  have hopen : (opWrite c s data tmo arr).2.2.closed = false := by
+    cases hcl : (opWrite c s data tmo arr).2.2.closed with
+    | false => rfl
+    | true => exact absurd ht (h3.mp hcl).2
+  refine ⟨by rw [h1]; simp [writeRes, ht], hopen, ?_⟩
+  exact (h4 hopen).2
 
 /-- a write never disturbs the diagnostic messages: whatever was queued or arrives during it stays queued in
     arrival order, whether the write completed or was refused by a negative acknowledgement -/
